@@ -1860,3 +1860,454 @@ Lemma bool_byte_not_preserved :
   | _ => false
   end = true.
 Proof. split; vm_compute; reflexivity. Qed.
+
+(* ------------------------------------------------------------------ the reparsed tree: same content, same text *)
+Section Reparsed.
+Variables (F : prflags) (PS : pschema) (E : penums) (fa : bool).
+Hypothesis HPS : pschema_okb PS = true.
+
+Lemma table_nodup t flds : nth_error PS t = Some flds -> NoDup (map pf_id flds).
+Proof.
+  intros Et. apply nth_error_In in Et. unfold pschema_okb in HPS. rewrite forallb_forall in HPS. specialize (HPS _ Et).
+  unfold ptable_okb in HPS. apply andb_true_iff in HPS. destruct HPS as [H1 _]. apply andb_true_iff in H1. destruct H1 as [_ H2].
+  apply nodupb_NoDup. exact H2.
+Qed.
+
+Lemma assoc_reparsed (G0 : prflags) rec flds fields fd : NoDup (map pf_id flds) -> In fd flds ->
+  assocZ (pf_id fd) (flat_map (reparse_item rec fa) (table_items G0 flds fields)) =
+  match field_item G0 fd fields with
+  | Some x => match reparse_item rec fa (fd, x) with (_, v) :: _ => Some v | [] => None end
+  | None => None
+  end.
+Proof.
+  intros Hnd Hin. unfold table_items. rewrite flat_map_flat_map.
+  rewrite (assoc_flat_map (fun fd => flat_map (reparse_item rec fa) (match field_item G0 fd fields with Some v => [(fd, v)] | None => [] end))).
+  - destruct (field_item G0 fd fields); cbn [flat_map]; [rewrite app_nil_r|]; reflexivity.
+  - intros fd'. destruct (field_item G0 fd' fields); cbn [flat_map]; [rewrite app_nil_r; apply ri_one | left; reflexivity].
+  - exact Hnd.
+  - exact Hin.
+Qed.
+
+Lemma reparse_is_table G0 fa0 k t fs : exists fs', reparse_table G0 PS fa0 k t (VTable fs) = VTable fs'.
+Proof. destruct k; cbn [reparse_table]; [eauto|]. destruct (nth_error PS t); eauto. Qed.
+
+Lemma items_pointwise {B} (G1 G2 : prflags) (h1 h2 : pfield * value -> list B) flds f1 f2 :
+  (forall fd, In fd flds -> flat_map h1 (match field_item G1 fd f1 with Some v => [(fd, v)] | None => [] end) =
+                           flat_map h2 (match field_item G2 fd f2 with Some v => [(fd, v)] | None => [] end)) ->
+  flat_map h1 (table_items G1 flds f1) = flat_map h2 (table_items G2 flds f2).
+Proof. intros H. unfold table_items. rewrite !flat_map_flat_map. apply flat_map_ext_in'. exact H. Qed.
+
+(* the content (all scalars equal to their default dropped) is unchanged by print + parse *)
+Theorem canon_reparse : forall k t v, canon PS k t (reparse_table F PS fa k t v) = canon PS k t v.
+Proof.
+  unfold canon. induction k as [|k IH]; intros t v; [reflexivity|]. cbn [reparse_table].
+  destruct (nth_error PS t) as [flds|] eqn:Et; [|reflexivity].
+  destruct v as [| | |fields| | | | |]; try reflexivity.
+  f_equal. pose proof (table_nodup t flds Et) as Hnd.
+  apply items_pointwise. intros fd Hin.
+  unfold field_item at 1. rewrite (assoc_reparsed F _ flds fields fd Hnd Hin).
+  unfold field_item, reparse_item. cbn [fl_skip_default fl_force_default canonF andb].
+  destruct (pf_kind fd) as [ty d| |ty| |t'|t'] eqn:Ek.
+  all: destruct (assocZ (pf_id fd) fields) as [y|] eqn:Ea.
+  all: try destruct y.
+  all: cbn [flat_map app].
+  all: try reflexivity.
+  - (* scalar, present *)
+    destruct (list_eqb bs d) eqn:E2; destruct (fl_skip_default F); destruct fa;
+      repeat (cbn [flat_map app andb negb orb]; rewrite ?Ek, ?E2); reflexivity.
+  - (* scalar, absent *)
+    destruct (fl_force_default F); destruct fa;
+      repeat (cbn [flat_map app andb negb orb]; rewrite ?Ek, ?list_eqb_refl); reflexivity.
+  - (* table *)
+    rewrite !Ek. destruct (reparse_is_table F fa k t' fields0) as (fs' & Efs). rewrite Efs. rewrite <- Efs, IH. reflexivity.
+  - (* vector of tables *)
+    rewrite !Ek. rewrite map_map. do 4 f_equal. apply map_ext. intros a. apply IH.
+Qed.
+Lemma flat_map_single {A B} (g : A -> B) l : flat_map (fun x => [g x]) l = map g l.
+Proof. induction l as [|x t IH]; [reflexivity|]. cbn [flat_map map app]. rewrite IH. reflexivity. Qed.
+
+(* printing the reparsed tree gives the identical text, when skip_default and force_default are not set together and the
+   parser keeps explicit defaults (force_add) or the printer has one of the default flags *)
+Theorem reprint_identical :
+  negb (fl_skip_default F && fl_force_default F) && (fa || fl_skip_default F || fl_force_default F) = true ->
+  forall k t lvl v, print_table F PS E k t lvl (reparse_table F PS fa k t v) = print_table F PS E k t lvl v.
+Proof.
+  intros Hcond. induction k as [|k IH]; intros t lvl v; [reflexivity|]. cbn [reparse_table].
+  destruct (nth_error PS t) as [flds|] eqn:Et; [|reflexivity].
+  destruct v as [| | |fields| | | | |]; try reflexivity.
+  cbn [print_table]. rewrite Et. pose proof (table_nodup t flds Et) as Hnd.
+  match goal with |- match opt_all (map ?g ?a) with _ => _ end = match opt_all (map ?g ?b) with _ => _ end =>
+    assert (Hm : map g a = map g b); [|rewrite Hm; reflexivity] end.
+  rewrite <- !flat_map_single. apply items_pointwise. intros fd Hin.
+  unfold field_item at 1. rewrite (assoc_reparsed F _ flds fields fd Hnd Hin).
+  unfold field_item, reparse_item.
+  destruct (pf_kind fd) as [ty d| |ty| |t'|t'] eqn:Ek.
+  all: destruct (assocZ (pf_id fd) fields) as [y|] eqn:Ea.
+  all: try destruct y.
+  all: cbn [flat_map app].
+  all: try reflexivity.
+  - (* scalar, present *)
+    destruct (list_eqb bs d) eqn:E2; [apply list_eqb_eq in E2; subst bs|];
+      destruct (fl_skip_default F); destruct (fl_force_default F); destruct fa; try discriminate Hcond;
+      repeat (cbn [flat_map app andb negb orb fst snd]; rewrite ?Ek, ?E2, ?list_eqb_refl); reflexivity.
+  - (* scalar, absent *)
+    destruct (fl_skip_default F); destruct (fl_force_default F); destruct fa; try discriminate Hcond;
+      repeat (cbn [flat_map app andb negb orb fst snd]; rewrite ?Ek, ?list_eqb_refl); reflexivity.
+  - (* table *)
+    cbn [fst snd]. unfold print_value. rewrite Ek.
+    destruct (reparse_is_table F fa k t' fields0) as (fs' & Efs). rewrite Efs. rewrite <- Efs, IH. reflexivity.
+  - (* vector of tables *)
+    cbn [fst snd]. unfold print_value. rewrite Ek. rewrite map_map.
+    replace (map (fun x => print_table F PS E k t' (lvl + 1 + 1) (reparse_table F PS fa k t' x)) elems)
+      with (map (print_table F PS E k t' (lvl + 1 + 1)) elems) by (apply map_ext; intros a; rewrite IH; reflexivity).
+    reflexivity.
+Qed.
+End Reparsed.
+
+Theorem reprint_root F PS E fa pmax root v : pschema_okb PS = true ->
+  negb (fl_skip_default F && fl_force_default F) && (fa || fl_skip_default F || fl_force_default F) = true ->
+  print_root F PS E pmax root (reparse_table F PS fa (Z.to_nat (pmax - 1)) root v) = print_root F PS E pmax root v.
+Proof. intros HPS Hc. unfold print_root. rewrite (reprint_identical F PS E fa HPS Hc). reflexivity. Qed.
+
+(* ------------------------------------------------------------------ strict output is RFC 8259 JSON *)
+Definition nows (rest : list Z) : Prop := match rest with x :: _ => json_ws x = false | [] => True end.
+
+Lemma skip_ws_app ws rest : wsp ws -> nows rest -> skip_ws (ws ++ rest) = rest.
+Proof.
+  intros Hw Hr. induction Hw as [|x t Hx Ht IH]; cbn [app].
+  - destruct rest as [|y r]; [reflexivity|]. cbn in Hr. cbn [skip_ws]. rewrite Hr. reflexivity.
+  - cbn [skip_ws]. replace (json_ws x) with true by (unfold json_ws; lia). exact IH.
+Qed.
+
+(* text that contains no quotation mark except as the second character of an escape *)
+Inductive qsafe : list Z -> Prop :=
+| qs_nil : qsafe []
+| qs_raw x r : x <> 34 -> x <> 92 -> qsafe r -> qsafe (x :: r)
+| qs_esc e r : qsafe r -> qsafe (92 :: e :: r).
+
+Lemma qsafe_app a b : qsafe a -> qsafe b -> qsafe (a ++ b).
+Proof. induction 1; intros Hb; cbn [app]; [assumption | apply qs_raw; auto | apply qs_esc; auto]. Qed.
+
+Lemma split_qsafe body : qsafe body -> forall fuel acc rest, (length body < fuel)%nat ->
+  split_string fuel (body ++ 34 :: rest) acc = Some (rev acc ++ body, rest).
+Proof.
+  induction 1 as [|x r H1 H2 Hr IH|e r Hr IH]; intros fuel acc rest Hf; (destruct fuel as [|f]; [cbn in Hf; lia|]); cbn [app split_string].
+  - rewrite app_nil_r. reflexivity.
+  - replace (x =? 34) with false by lia. replace (x =? 92) with false by lia.
+    rewrite IH by (cbn [length] in Hf; lia). cbn [rev]. rewrite <- app_assoc. reflexivity.
+  - cbn [Z.eqb Pos.eqb]. rewrite IH by (cbn [length] in Hf; lia). cbn [rev]. rewrite <- !app_assoc. reflexivity.
+Qed.
+
+Lemma json_string_ok body rest : qsafe body -> rfc8259_string (34 :: body ++ [34]) = true ->
+  json_string (34 :: body ++ 34 :: rest) = Some rest.
+Proof.
+  intros Hq Hr. unfold json_string. cbn [Z.eqb Pos.eqb].
+  rewrite (split_qsafe body Hq) by (rewrite app_length; cbn [length]; lia). cbn [rev app]. rewrite Hr. reflexivity.
+Qed.
+
+Lemma qsafe_ident nm : Forall (fun x => ident_char x = true) nm -> qsafe nm.
+Proof. induction 1 as [|x t Hx Ht IH]; [constructor|]. unfold ident_char in Hx. apply qs_raw; [lia|lia|exact IH]. Qed.
+
+Lemma qsafe_body s : bytes_ok s -> qsafe (print_string_body s).
+Proof.
+  induction 1 as [|x t Hx Ht IH]; [constructor|]. rewrite body_cons. apply qsafe_app; [|exact IH].
+  unfold print_byte. destruct (needs_escape x) eqn:En.
+  - unfold print_escape.
+    destruct (x =? 34); [apply qs_esc; constructor|]. destruct (x =? 92); [apply qs_esc; constructor|].
+    destruct (x =? 9); [apply qs_esc; constructor|]. destruct (x =? 12); [apply qs_esc; constructor|].
+    destruct (x =? 13); [apply qs_esc; constructor|]. destruct (x =? 10); [apply qs_esc; constructor|].
+    destruct (x =? 8); [apply qs_esc; constructor|].
+    unfold in_u8 in Hx. pose proof (hexchar_range (x / 16) ltac:(lia)). pose proof (hexchar_range (x mod 16) ltac:(lia)).
+    apply qs_esc. apply qs_raw; [lia|lia|]. apply qs_raw; [lia|lia|]. apply qs_raw; [lia|lia|]. apply qs_raw; [lia|lia|]. constructor.
+  - unfold needs_escape in En. apply qs_raw; [lia|lia|constructor].
+Qed.
+
+Lemma json_chars_idents nm : Forall (fun x => ident_char x = true) nm -> json_chars (nm ++ [34]) = true.
+Proof.
+  induction 1 as [|x t Hx Ht IH]; [reflexivity|]. cbn [app]. unfold ident_char in Hx.
+  rewrite json_chars_ascii; [exact IH | unfold needs_escape; lia | lia].
+Qed.
+
+Lemma json_string_name nm rest : name_okb nm = true -> json_string (34 :: nm ++ 34 :: rest) = Some rest.
+Proof.
+  intros H. apply name_okb_facts in H. destruct H as [H _]. apply json_string_ok; [apply qsafe_ident; exact H|].
+  cbn [rfc8259_string]. apply json_chars_idents. exact H.
+Qed.
+
+Lemma json_string_printed s rest : bytes_ok s -> utf8_valid s = true -> json_string (print_string s ++ rest) = Some rest.
+Proof.
+  intros Hb Hu. unfold print_string. cbn [app]. rewrite <- app_assoc. cbn [app].
+  apply json_string_ok; [apply qsafe_body; exact Hb|]. apply (strict_json_string s Hu).
+Qed.
+
+(* numbers *)
+Lemma skip_digits_app ds rest : Forall NumProofs.digitc ds -> (match rest with x :: _ => is_digit x = false | [] => True end) ->
+  skip_digits (ds ++ rest) = rest.
+Proof.
+  intros Hd Hr. induction Hd as [|d t Hd Ht IH]; cbn [app].
+  - destruct rest as [|x r]; [reflexivity|]. cbn [skip_digits]. rewrite Hr. reflexivity.
+  - cbn [skip_digits]. replace (is_digit d) with true by (unfold is_digit, NumProofs.digitc in *; lia). exact IH.
+Qed.
+
+Definition vf (rest : list Z) : Prop := vfollow_head rest \/ rest = [].
+
+Lemma json_number_decimal n rest : 0 <= n -> vf rest -> json_number (NumModel.decimal n ++ rest) = Some rest.
+Proof.
+  intros Hn Hr. destruct (NumProofs.decimal_canon n Hn) as (Hd & _ & Hc).
+  destruct rest as [|y r].
+  { unfold json_number. destruct Hc as [->|(d & t & Ed & Hd0)]; [reflexivity|]. rewrite Ed in *.
+    pose proof (Forall_inv Hd) as Hdd. pose proof (Forall_inv_tail Hd) as Hdt. unfold NumProofs.digitc in Hdd. cbn [app hd_is tl].
+    replace (d =? 45) with false by lia. replace (d =? 48) with false by lia. replace ((49 <=? d) && (d <=? 57)) with true by lia.
+    rewrite (skip_digits_app t [] Hdt I). reflexivity. }
+  destruct Hr as [Hr|Hr]; [|discriminate]. cbn in Hr. unfold vfollow in Hr.
+  assert (Hy : is_digit y = false) by (unfold is_digit; lia).
+  assert (E46 : (y =? 46) = false) by lia. assert (E101 : (y =? 101) = false) by lia. assert (E69 : (y =? 69) = false) by lia.
+  unfold json_number. destruct Hc as [->|(d & t & Ed & Hd0)]; [|rewrite Ed in *].
+  - repeat (cbn [app hd_is tl Z.eqb Pos.eqb orb]; rewrite ?E46, ?E101, ?E69). reflexivity.
+  - pose proof (Forall_inv Hd) as Hdd. pose proof (Forall_inv_tail Hd) as Hdt. unfold NumProofs.digitc in Hdd. cbn [app hd_is tl].
+    replace (d =? 45) with false by lia. replace (d =? 48) with false by lia. replace ((49 <=? d) && (d <=? 57)) with true by lia.
+    rewrite (skip_digits_app t (y :: r) Hdt Hy). repeat (cbn [hd_is tl orb]; rewrite ?E46, ?E101, ?E69). reflexivity.
+Qed.
+
+Lemma json_number_sdecimal x rest : vf rest -> json_number (NumModel.sdecimal x ++ rest) = Some rest.
+Proof.
+  intros Hr. unfold NumModel.sdecimal. destruct (x <? 0) eqn:Ex; [|apply json_number_decimal; [lia|assumption]].
+  pose proof (json_number_decimal (- x) rest ltac:(lia) Hr) as H. unfold json_number in *. cbn [app hd_is tl Z.eqb Pos.eqb].
+  destruct (NumProofs.decimal_canon (- x) ltac:(lia)) as (Hd & _ & _).
+  destruct (NumModel.decimal (- x)) as [|d t] eqn:Ed; [exfalso; apply (NumProofs.decimal_nonempty (- x)); [lia|exact Ed]|].
+  cbn [app hd_is tl] in H |- *.
+  apply Forall_inv in Hd. unfold NumProofs.digitc in Hd. replace (d =? 45) with false in H by lia. exact H.
+Qed.
+
+Lemma strip_prefix_app lit rest : strip_prefix lit (lit ++ rest) = Some rest.
+Proof. induction lit as [|l t IH]; [reflexivity|]. cbn [app strip_prefix]. rewrite Z.eqb_refl. exact IH. Qed.
+
+Section Rfc.
+Variables (F : prflags) (PS : pschema) (E : penums).
+Hypothesis HQ : fl_unquote F = false.
+Hypothesis HPS : pschema_okb PS = true.
+Hypothesis HRT : rt_schema_okb PS = true.
+Hypothesis HE : enums_okb E = true.
+
+(* one scalar *)
+Lemma json_value_scalar t id ty bs rest f : sty_ok ty -> scalar_okb ty bs = true -> vf rest ->
+  json_value (S f) (scalar_text F (enum_of E t id) ty bs ++ rest) = Some rest.
+Proof.
+  intros Hok Hs Hr. unfold scalar_okb in Hs. apply andb_true_iff in Hs. destruct Hs as [Hs _].
+  apply andb_true_iff in Hs. destruct Hs as [Hl Hb]. apply byte_okb_forall in Hb.
+  unfold scalar_text. destruct (st_bool ty).
+  { destruct (le_val bs =? 0); cbn [json_value app lit_false lit_true Z.eqb Pos.eqb]; [apply (strip_prefix_app lit_false) | apply (strip_prefix_app lit_true)]. }
+  assert (En : num_text ty (sval_of ty bs) = NumModel.sdecimal (sval_of ty bs)) by (apply num_text_sdecimal; [assumption|lia|assumption]).
+  assert (Hnum : json_value (S f) (NumModel.sdecimal (sval_of ty bs) ++ rest) = Some rest).
+  { pose proof (sdecimal_head (sval_of ty bs)) as Hh. pose proof (json_number_sdecimal (sval_of ty bs) rest Hr) as Hj.
+    assert (Hd : forall c, In c [123; 91; 34; 116; 102; 110] -> match NumModel.sdecimal (sval_of ty bs) with y :: _ => y <> c | [] => True end).
+    { intros c Hc. unfold NumModel.sdecimal. destruct (sval_of ty bs <? 0) eqn:Ex; [cbn in Hc; lia|].
+      pose proof (NumProofs.decimal_digits (sval_of ty bs) ltac:(lia)) as Hdd.
+      destruct (NumModel.decimal (sval_of ty bs)); [exact I|]. apply Forall_inv in Hdd. unfold NumProofs.digitc in Hdd. cbn in Hc. lia. }
+    destruct (NumModel.sdecimal (sval_of ty bs)) as [|y r] eqn:Es; [contradiction|]. cbn [app json_value].
+    replace (y =? 123) with false by (specialize (Hd 123 ltac:(cbn; tauto)); lia).
+    replace (y =? 91) with false by (specialize (Hd 91 ltac:(cbn; tauto)); lia).
+    replace (y =? 34) with false by (specialize (Hd 34 ltac:(cbn; tauto)); lia).
+    replace (y =? 116) with false by (specialize (Hd 116 ltac:(cbn; tauto)); lia).
+    replace (y =? 102) with false by (specialize (Hd 102 ltac:(cbn; tauto)); lia).
+    replace (y =? 110) with false by (specialize (Hd 110 ltac:(cbn; tauto)); lia).
+    exact Hj. }
+  destruct (fl_noenum F); [rewrite En; exact Hnum|].
+  destruct (assocZ _ _) as [nm|] eqn:Ea; [|rewrite En; exact Hnum].
+  unfold psymbol. rewrite HQ. cbn [app json_value Z.eqb Pos.eqb]. rewrite <- app_assoc. cbn [app].
+  apply json_string_name. eapply enum_names_ok_gen; eassumption.
+Qed.
+
+(* a value text: recognized whatever follows, as long as a separator / closing character / white space follows *)
+Definition vtext (tx : list Z) : Prop :=
+  (match tx with y :: _ => json_ws y = false /\ y <> 93 /\ y <> 125 | [] => False end) /\
+  forall f rest, Nat.lt (length tx) f -> vf rest -> json_value f (tx ++ rest) = Some rest.
+
+Lemma vfollow_nows rest : vstop rest -> nows rest.
+Proof. destruct rest as [|y r]; cbn; [tauto|]. unfold json_ws. lia. Qed.
+
+Lemma hd_is_app_false c tx rest : (match tx with y :: _ => y <> c | [] => False end) -> hd_is c (tx ++ rest) = false.
+Proof. destruct tx as [|y r]; [tauto|]. cbn. lia. Qed.
+
+Ltac len_norm := unfold Nat.lt in *; cbn [length] in *; repeat (rewrite !app_length in *; cbn [length] in *).
+
+(* elements of an array, separated by ',' and the white space [sep]; closed by [wsE] ']' *)
+Lemma json_elements_ok sep wsE : wsp sep -> wsp wsE -> forall es e1 f rest, Forall vtext (e1 :: es) ->
+  Nat.lt (length (e1 ++ flat_map (fun y => 44 :: sep ++ y) es ++ wsE ++ [93])) f ->
+  json_elements f (e1 ++ flat_map (fun y => 44 :: sep ++ y) es ++ wsE ++ 93 :: rest) = Some rest.
+Proof.
+  intros Hsep HwE. induction es as [|e2 r IH]; intros e1 f rest Hes Hf; (destruct f as [|f]; [lia|]); cbn [json_elements];
+    inversion Hes as [|? ? [Hh1 Hv1] Hes']; subst.
+  - cbn [flat_map app] in *. rewrite Hv1; [| len_norm; lia | left; apply vfollow_ws; [assumption|cbn; tauto]].
+    rewrite skip_ws_app by (try assumption; cbn; reflexivity). cbn [hd_is tl Z.eqb Pos.eqb]. reflexivity.
+  - cbn [flat_map app] in *. rewrite <- !app_assoc in *. cbn [app] in *.
+    rewrite Hv1; [| len_norm; lia | left; cbn; unfold vfollow; tauto].
+    cbn [skip_ws json_ws Z.eqb Pos.eqb orb hd_is tl].
+    inversion Hes' as [|? ? [Hh2 Hv2] _]; subst.
+    rewrite skip_ws_app; [| assumption | destruct e2; [tauto|cbn; tauto]].
+    apply IH; [assumption|]. len_norm. lia.
+Qed.
+
+Lemma json_array_ok sep wsE es f rest : wsp sep -> wsp wsE -> Forall vtext es ->
+  Nat.lt (length (91 :: commas (map (app sep) es) ++ wsE ++ [93])) f ->
+  json_value f ((91 :: commas (map (app sep) es) ++ wsE ++ [93]) ++ rest) = Some rest.
+Proof.
+  intros Hsep HwE Hes Hf. destruct f as [|f]; [lia|]. cbn [app json_value Z.eqb Pos.eqb]. destruct es as [|e1 r].
+  - cbn [map commas app]. rewrite <- app_assoc. cbn [app]. rewrite skip_ws_app by (try assumption; cbn; reflexivity).
+    cbn [hd_is tl Z.eqb Pos.eqb]. reflexivity.
+  - cbn [map commas]. rewrite <- !app_assoc.
+    replace (flat_map (fun y => 44 :: y) (map (app sep) r)) with (flat_map (fun y => 44 :: sep ++ y) r)
+      by (clear; induction r as [|a t IH]; [reflexivity|]; cbn [map flat_map]; rewrite IH; reflexivity).
+    inversion Hes as [|? ? [Hh1 Hv1] _]; subst.
+    rewrite skip_ws_app; [| assumption | destruct e1; [tauto|cbn; tauto]].
+    rewrite hd_is_app_false by (destruct e1; tauto). cbn [app].
+    apply (json_elements_ok sep wsE Hsep HwE r e1 f rest Hes).
+    cbn [map commas] in Hf.
+    assert (El : length (flat_map (fun y => 44 :: y) (map (app sep) r)) = length (flat_map (fun y => 44 :: sep ++ y) r))
+      by (clear; induction r as [|a t IH]; [reflexivity|]; cbn [map flat_map length]; rewrite !app_length, IH; reflexivity).
+    len_norm. lia.
+Qed.
+
+(* members of an object: "name" ':' sp1 value, separated by ',' nl, closed by nl '}' *)
+Definition mtext (body : list Z) : Prop :=
+  exists nm tx, name_okb nm = true /\ vtext tx /\ body = (34 :: nm ++ [34]) ++ 58 :: sp1 F ++ tx.
+
+Lemma json_members_ok lvl : forall bodies body f rest, Forall mtext (body :: bodies) ->
+  Nat.lt (length (body ++ tail_text F lvl bodies)) f ->
+  json_members f (body ++ tail_text F lvl bodies ++ rest) = Some rest.
+Proof.
+  induction bodies as [|b2 r IH]; intros body f rest Hb Hf; (destruct f as [|f]; [lia|]); cbn [json_members];
+    inversion Hb as [|? ? (nm & tx & Hnm & [Hh Hv] & ->) Hb']; subst.
+  all: cbn [app]; repeat (rewrite <- !app_assoc; cbn [app]); rewrite json_string_name by assumption.
+  all: cbn [skip_ws json_ws Z.eqb Pos.eqb orb hd_is tl].
+  all: rewrite skip_ws_app; [| apply wsp_sp1 | destruct tx; [tauto|cbn; tauto]].
+  - cbn [tail_text] in *. rewrite <- !app_assoc. cbn [app].
+    rewrite Hv; [| len_norm; lia | left; apply vfollow_ws; [apply wsp_nl|cbn; tauto]].
+    rewrite skip_ws_app by (try apply wsp_nl; cbn; reflexivity). cbn [hd_is tl Z.eqb Pos.eqb]. reflexivity.
+  - cbn [tail_text] in *. cbn [app].
+    rewrite Hv; [| len_norm; lia | left; cbn; unfold vfollow; tauto].
+    cbn [skip_ws json_ws Z.eqb Pos.eqb orb hd_is tl]. rewrite <- !app_assoc.
+    inversion Hb' as [|? ? (nm2 & tx2 & Hnm2 & Hvt2 & E2) _]; subst.
+    rewrite skip_ws_app; [| apply wsp_nl | cbn; reflexivity].
+    apply (IH _ f rest Hb'). len_norm. lia.
+Qed.
+
+Lemma assocZ_In {A} k (l : list (Z * A)) v : assocZ k l = Some v -> In (k, v) l.
+Proof.
+  induction l as [|[k' a] r IH]; cbn [assocZ]; [discriminate|]. destruct (k =? k') eqn:Ek; [|right; auto].
+  intros [= <-]. left. f_equal. lia.
+Qed.
+
+Lemma vtext_scalar t id ty bs : sty_ok ty -> scalar_okb ty bs = true -> vtext (scalar_text F (enum_of E t id) ty bs).
+Proof.
+  intros Hok Hs. split.
+  - unfold scalar_text. destruct (st_bool ty); [destruct (le_val bs =? 0); cbn; unfold json_ws; lia|].
+    assert (Hn : forall x, match NumModel.sdecimal x with y :: _ => json_ws y = false /\ y <> 93 /\ y <> 125 | [] => False end).
+    { intros x. pose proof (sdecimal_head x) as Hh. destruct (NumModel.sdecimal x); [contradiction|]. cbn in Hh. unfold json_ws. lia. }
+    unfold scalar_okb in Hs. apply andb_true_iff in Hs. destruct Hs as [Hs _]. apply andb_true_iff in Hs. destruct Hs as [Hl Hb].
+    apply byte_okb_forall in Hb.
+    assert (En : num_text ty (sval_of ty bs) = NumModel.sdecimal (sval_of ty bs)) by (apply num_text_sdecimal; [assumption|lia|assumption]).
+    destruct (fl_noenum F); [rewrite En; apply Hn|]. destruct (assocZ _ _); [|rewrite En; apply Hn].
+    unfold psymbol. rewrite HQ. cbn. unfold json_ws. lia.
+  - intros f rest Hf Hr. destruct f as [|f]; [unfold Nat.lt in Hf; lia|]. apply json_value_scalar; assumption.
+Qed.
+
+Lemma vtext_string s : bytes_ok s -> utf8_valid s = true -> vtext (print_string s).
+Proof.
+  intros Hb Hu. split; [cbn; unfold json_ws; lia|]. intros f rest Hf Hr. destruct f as [|f]; [unfold Nat.lt in Hf; lia|].
+  unfold print_string at 1. cbn [app json_value Z.eqb Pos.eqb].
+  change (34 :: (print_string_body s ++ [34]) ++ rest) with (print_string s ++ rest). apply json_string_printed; assumption.
+Qed.
+
+Lemma map_app_nil (l : list (list Z)) : map (app []) l = l.
+Proof. change (map (fun m : list Z => m) l = l). apply map_id. Qed.
+
+Lemma vtext_array sep lvl es : wsp sep -> Forall vtext es -> vtext (91 :: commas (map (app sep) es) ++ pend F lvl 93).
+Proof.
+  intros Hsep Hes. split; [cbn; unfold json_ws; lia|]. intros f rest Hf Hr. unfold pend in *.
+  apply (json_array_ok sep (nl F lvl) es f rest Hsep (wsp_nl F lvl) Hes Hf).
+Qed.
+
+Lemma vtext_table : forall k t lvl v tx, print_table F PS E k t lvl v = Some tx -> wt_table F PS E k t v = true ->
+  utf8_value v = true -> vtext tx.
+Proof.
+  induction k as [|k IH]; intros t lvl v tx Hp Hw Hu; [discriminate|].
+  pose proof Hw as Hw0. cbn [print_table wt_table] in Hp, Hw.
+  destruct (nth_error PS t) as [flds|] eqn:Et; [|discriminate]. destruct v as [| | |fields| | | | |]; try discriminate.
+  destruct (table_facts PS HPS HRT t flds Et) as (Hfok & _ & _ & _ & Hnmok & _).
+  destruct (opt_all _) as [its|] eqn:Eits; [|discriminate]. inversion Hp; subst tx. clear Hp.
+  apply opt_all_Forall2 in Eits. cbn [utf8_value] in Hu. rewrite forallb_forall in Hu.
+  (* every printed member is a member text *)
+  assert (Hbod : forall l r, Forall2 (fun (it : pfield * value) b0 =>
+                   match print_value F E (print_table F PS E k) t (fst it) (lvl + 1) (snd it) with
+                   | Some tx => Some (pname F (lvl + 1) (pf_name (fst it)) ++ tx) | None => None end = Some b0) l r ->
+                 (forall it, In it l -> In it (table_items F flds fields)) ->
+                 exists bodies, r = map (app (nl F (lvl + 1))) bodies /\ Forall mtext bodies).
+  { induction 1 as [|it b0 l r Hb Hr IHl]; intros Hsub; [exists []; split; [reflexivity|constructor]|].
+    destruct IHl as (bodies & -> & Hm); [intros; apply Hsub; right; assumption|].
+    destruct (print_value _ _ _ _ _ _ _) as [tx|] eqn:Epv; [|discriminate]. inversion Hb; subst b0.
+    pose proof (Hsub it (or_introl eq_refl)) as Hin. destruct it as [fd x]. cbn [fst snd] in *.
+    destruct (items_in F flds fields _ Hin) as [Hfd Hfi]. cbn [fst snd] in *.
+    pose proof (items_wt F PS E HPS HRT k t flds fields Et Hw0 _ Hin) as Hwv. cbn [fst snd] in Hwv.
+    assert (Hux : utf8_value x = true).
+    { unfold field_item in Hfi. destruct (pf_kind fd) eqn:Ek; destruct (assocZ (pf_id fd) fields) as [y|] eqn:Ea; try discriminate;
+        try (inversion Hfi; subst; apply (Hu _ (assocZ_In _ _ _ Ea))).
+      - destruct y; try (inversion Hfi; subst; apply (Hu _ (assocZ_In _ _ _ Ea))).
+        destruct (fl_skip_default F && list_eqb bs dflt); [discriminate|]. inversion Hfi; reflexivity.
+      - destruct (fl_force_default F); [|discriminate]. inversion Hfi; reflexivity. }
+    exists ((psymbol F (pf_name fd) ++ 58 :: sp1 F ++ tx) :: bodies). split.
+    { cbn [map]. unfold pname. rewrite <- !app_assoc. reflexivity. }
+    constructor; [|exact Hm]. exists (pf_name fd), tx. split; [apply Hnmok; exact Hfd|]. split; [|unfold psymbol; rewrite HQ; reflexivity].
+    (* the value *)
+    specialize (Hfok fd Hfd). unfold pfield_okb in Hfok. apply andb_true_iff in Hfok. destruct Hfok as [_ Hkd].
+    unfold print_value, wt_value in *.
+    destruct (pf_kind fd) as [ty d| |ty| |t'|t'] eqn:Ek; cbn [pkind_okb] in Hkd.
+    - destruct x; try discriminate. inversion Epv; subst. apply andb_true_iff in Hwv. apply vtext_scalar; tauto.
+    - destruct x; try discriminate. inversion Epv; subst. apply vtext_string; [apply byte_okb_forall; exact Hwv|exact Hux].
+    - destruct x; try discriminate. inversion Epv; subst. apply andb_true_iff in Hwv. destruct Hwv as [Hes _].
+      rewrite <- (map_map (scalar_text F (enum_of E t (pf_id fd)) ty) (app (nl F (lvl + 1 + 1)))).
+      apply vtext_array; [apply wsp_nl|]. apply Forall_forall. intros y Hy. apply in_map_iff in Hy. destruct Hy as (e & <- & He).
+      rewrite forallb_forall in Hes. specialize (Hes e He). apply andb_true_iff in Hes. apply vtext_scalar; tauto.
+    - destruct x; try discriminate. destruct (strvec_shape _ Hwv) as (strs & -> & Hstrs).
+      destruct (opt_all _) as [its'|] eqn:Eo; [|discriminate]. inversion Epv; subst. apply strvec_texts in Eo. subst its'.
+      rewrite <- (map_map print_string (app (nl F (lvl + 1 + 1)))).
+      apply vtext_array; [apply wsp_nl|]. apply Forall_forall. intros y Hy. apply in_map_iff in Hy. destruct Hy as (s0 & <- & Hs0).
+      apply vtext_string; [rewrite Forall_forall in Hstrs; exact (Hstrs _ Hs0)|].
+      cbn [utf8_value] in Hux. rewrite forallb_forall in Hux. exact (Hux (VString s0) (in_map VString _ _ Hs0)).
+    - destruct x; try discriminate. eapply IH; eassumption.
+    - destruct x; try discriminate. destruct (opt_all _) as [its'|] eqn:Eo; [|discriminate]. inversion Epv; subst.
+      apply opt_all_Forall2 in Eo. rewrite <- (map_app_nil its'). apply vtext_array; [constructor|].
+      cbn [utf8_value] in Hux. rewrite forallb_forall in Hux, Hwv.
+      clear - Eo IH Hux Hwv. induction Eo as [|a b0 l r Hab Hr IHl]; constructor.
+      + eapply IH; [exact Hab | apply Hwv; left; reflexivity | apply Hux; left; reflexivity].
+      + apply IHl; intros; [apply Hwv | apply Hux]; right; assumption. }
+  destruct (Hbod _ its Eits ltac:(auto)) as (bodies & -> & Hmem). clear Hbod.
+  split; [cbn; unfold json_ws; lia|]. intros f rest Hf Hr. destruct f as [|f]; [unfold Nat.lt in Hf; lia|].
+  cbn [app json_value Z.eqb Pos.eqb]. unfold pend in *. destruct bodies as [|body bodies'].
+  - cbn [map commas app]. rewrite <- app_assoc. cbn [app]. rewrite skip_ws_app by (try apply wsp_nl; cbn; reflexivity).
+    cbn [hd_is tl Z.eqb Pos.eqb]. reflexivity.
+  - cbn [map commas]. rewrite <- !app_assoc.
+    replace (flat_map (fun y => 44 :: y) (map (app (nl F (lvl + 1))) bodies') ++ nl F lvl ++ [125] ++ rest)
+      with (tail_text F lvl bodies' ++ rest) by (rewrite <- (tail_text_eq F), <- !app_assoc; reflexivity).
+    pose proof (Forall_inv Hmem) as (nm & tx & Hnm & Hvt & Eb).
+    rewrite skip_ws_app; [| apply wsp_nl | rewrite Eb; cbn; reflexivity].
+    rewrite hd_is_app_false by (rewrite Eb; cbn; lia).
+    apply json_members_ok; [exact Hmem|].
+    cbn [map commas] in Hf. pose proof (f_equal (@length Z) (tail_text_eq F lvl bodies')) as El. len_norm. lia.
+Qed.
+
+(* with quoted names the whole document is RFC 8259 JSON when the strings are UTF-8 *)
+Theorem strict_document pmax root v text : wt_table F PS E (Z.to_nat (pmax - 1)) root v = true -> utf8_value v = true ->
+  print_root F PS E pmax root v = Some text -> rfc8259_document text = true.
+Proof.
+  intros Hw Hu Hp. unfold print_root in Hp. destruct (print_table _ _ _ _ _ _ _) as [tx|] eqn:Et; [|discriminate]. inversion Hp; subst text. clear Hp.
+  destruct (vtext_table _ _ _ _ _ Et Hw Hu) as [Hh Hv]. unfold rfc8259_document.
+  set (last := if 0 <? fl_indent F then [10] else []).
+  assert (Hs : skip_ws (tx ++ last) = tx ++ last).
+  { destruct tx as [|y r]; [contradiction|]. cbn [app skip_ws]. destruct Hh as [-> _]. reflexivity. }
+  rewrite Hs. rewrite Hv.
+  - unfold last. destruct (0 <? fl_indent F); reflexivity.
+  - unfold Nat.lt. rewrite app_length. lia.
+  - unfold last, vf. destruct (0 <? fl_indent F); [left; cbn; unfold vfollow; tauto | right; reflexivity].
+Qed.
+End Rfc.
